@@ -15,7 +15,13 @@ SPEC = {
              "sizes x truncation points, IPv4/IPv6 incl. IPv4-mapped, noise) through the real parseUDPHeader, then "
              "buildUDPHeader of the result and parseUDPHeader again. ubp cases: host text (IPv4/IPv6 canonical and "
              "non-canonical spellings, names of every length) x port x payload through buildUDPHeader then parseUDPHeader. "
-             "distinct = distinct (mode, stream/datagram/host, chunk sizes)"),
+             "relay cases: a sequence of datagrams (valid IPv4/IPv6/domain incl. shared destinations and exact duplicates, "
+             "fragments, truncated, unknown ATYP; payload 0..1400) sent to the UDP socket of a real UDPRelay (readLoop + one "
+             "handlePacket goroutine per datagram) with tunnel doubles recording every SendPacket; three forced schedules: "
+             "paced (each delivered before the next is sent), burst (GOMAXPROCS(1), whole burst written before the harness "
+             "yields, so the reader drains the socket before any started goroutine runs), gated (doubles block in SendPacket "
+             "until every destination has arrived, bytes taken when the gate opens); observation = sorted multiset of "
+             "(tunnel destination, bytes). distinct = distinct (mode, stream/datagram(s)/host, chunk sizes)"),
     "trusted_base": [
         "Lean 4.33 kernel; axioms propext, Classical.choice, Quot.sound only (audited per theorem on every run)",
         "extractor /verif/extract (go/ast): SOCKS5 constants of both packages, call skeletons (order of ReadFull / Write / "
@@ -25,6 +31,9 @@ SPEC = {
         "net.IP.String (16-byte, not IPv4-mapped) and net.ParseIP are parameters of the model (IPText), measured per case by the harness; "
         "the round-trip theorems assume ParseIP(String(ip)) = ip (IPText.RT)",
         "the reference reading of RFC 1928/1929 is Spec/C20.lean (decodeNeg, decodeUDP), proved inverse to the grammar encoders",
+        "relay: transition system over the shared read buffer (Relay.step: read | run i), theorem for every schedule; tied by the "
+        "readLoop/handlePacket call skeletons (copy made by the reader before `go`, parse in the goroutine) and by the burst/gated runs "
+        "of the real relay over loopback UDP; the Go scheduler itself is not modelled (goroutine start-to-SendPacket is one step)",
     ],
     "assumptions": [
         "reference leniencies: RSV octets ignored on receipt; zero-length domain names are grammatical; with several invalid request fields the first in wire order (VER, CMD, ATYP) decides the reply",
@@ -32,6 +41,8 @@ SPEC = {
         "writes to the application connection succeed (write errors are not injected)",
         "BuildWF for buildUDPHeader: host text of at most 255 octets and port < 65536 (callers pass the host/port a parse produced)",
         "same destination = same host text, or IP literals denoting the same address (a name spelled as a non-canonical IP literal is re-encoded as that address)",
+        "relay: datagrams fit the 65535-byte read buffer (UDP cannot carry more); loopback UDP does not drop or reorder the bursts "
+        "(<= 17 datagrams, <= 25 KB); session limits, idle cleanup, the DNS-over-control-channel path and the reply direction are out of scope",
         "the SocksAdapter is driven through handleHandshake+handleRequest in the order of handleSocksConnection (pinned by skeleton); dialing and relaying are out of scope",
     ],
 }
